@@ -46,6 +46,14 @@ var positions = []position{
 	{&testproto.WellKnown{}, "default_duration"},
 	{&testproto.WellKnown{}, "default_duration"},
 	{&testproto.WellKnown{}, "default_duration"},
+	// the compared kinds as list elements and map values themselves (dyn.go)
+	{dynTimesType.New().Interface(), "starts"},
+	{dynTimesType.New().Interface(), "lengths"},
+	{dynTimesType.New().Interface(), "lengths"},
+	{dynTimesType.New().Interface(), "levels"},
+	{dynTimesType.New().Interface(), "named"},
+	{dynTimesType.New().Interface(), "spans"},
+	{dynTimesType.New().Interface(), "children"},
 }
 
 func (p position) fd() pref.FieldDescriptor {
@@ -395,7 +403,7 @@ func (g *gen) vpair(p position, forDP bool) (pref.Value, pref.Value) {
 	case fd.Kind() == pref.MessageKind:
 		holder := p.msg.ProtoReflect().New()
 		x := g.value(holder, fd, 2)
-		y := pref.ValueOfMessage(proto.Clone(x.Message().Interface()).ProtoReflect())
+		y := pref.ValueOfMessage(cloneExact(x.Message().Interface()).ProtoReflect())
 		if g.r.Intn(2) == 0 {
 			g.mutate(y.Message(), 1)
 		}
